@@ -33,6 +33,10 @@ class Module:
         self.star = []      # dotted module names star-imported
         self.toplevel = {}  # module-level name -> list of value nodes (assignments)
         self.bound = set()  # every name bound at module level (any statement kind)
+        # undo behaviour-preserving renamings of local variables (sa/alpha.py): rules are written with the confirmed names
+        if not os.environ.get('VERIF_NO_ALPHA'):
+            from . import alpha
+            self.alpha_renamed = alpha.normalise_module(self.rel, self.tree)
         self._index()
 
     # -- indexing -------------------------------------------------------------
